@@ -448,22 +448,106 @@ pub fn specs(tier: Tier) -> Vec<GenSpec> {
     }
 }
 
+/// Yen's algorithm wraps the query's frontier model (to cut edges for its spur searches): networks whose least-cost route has
+/// at least three edges (where Yen's produces alternatives on this tree, see the known findings of C13) x one forbidden edge off
+/// that route, by road class or by a vehicle restriction. runs in worker processes because Yen's can hang; a case that
+/// does not come back is C13's business and only counted here
+fn yens_cases(tier: Tier) -> Vec<(Net, Restr)> {
+    use crate::refmodel::graph::{bellman_ford, simple_paths};
+    let spec = GenSpec { n: 5, max_edges: tier.pick(6, 7), max_mult: 1, n_len: 1, self_loops: false, mode: LenMode::PowersOfTwo };
+    let mut out = vec![];
+    for (p, t) in crate::world::net::shards(&spec, 2) {
+        crate::world::net::for_each_in_shard(&spec, &p, t, &mut |net| {
+            let n = net.n;
+            let m = net.m();
+            if m < 5 {
+                return;
+            }
+            let w = World::distance(net.clone());
+            let cost_of = |e: usize| Some(w.ref_edge_cost(None, e));
+            let d = bellman_ford(net, 0, true, &cost_of);
+            if !d[n - 1].is_finite() {
+                return;
+            }
+            let paths = simple_paths(net, 0, n - 1, &|_| true);
+            if paths.len() < 2 {
+                return;
+            }
+            let best = paths.iter().min_by(|a, b| a.iter().map(|e| w.ref_edge_cost(None, *e)).sum::<f64>().partial_cmp(&b.iter().map(|e| w.ref_edge_cost(None, *e)).sum::<f64>()).unwrap()).unwrap().clone();
+            if best.len() < 3 {
+                return;
+            }
+            let idx = net.hash_idx() as usize;
+            for e in 0..m {
+                if best.contains(&e) {
+                    continue;
+                }
+                let r = if (idx + e) % 2 == 0 {
+                    Restr { classes: (0..m).map(|x| (x == e) as u8).collect(), query_classes: Some(json!([0])), class_names: vec![("local".to_string(), 0u8), ("highway".to_string(), 1u8)], ..Default::default() }
+                } else {
+                    Restr { vehicle_rows: vec![RawRestriction { edge: e, kind: "maximum_height".into(), value: 4.0, unit: "meters".into() }], vehicle: Some(vehicle(13.5, 9000.0, 4)), ..Default::default() }
+                };
+                out.push((net.clone(), r));
+            }
+        });
+    }
+    out
+}
+
+pub fn worker(args: &[String]) -> i32 {
+    let tier = if args.first().map(|s| s.as_str()) == Some("thorough") { Tier::Thorough } else { Tier::Quick };
+    let cases = yens_cases(tier);
+    crate::engine::sandbox::worker_loop(|i, st| {
+        let (net, r) = &cases[i as usize];
+        let w = World::distance(net.clone());
+        st.states += 1;
+        for k in [2usize, 3] {
+            let mut scratch = Stats::new();
+            let algo = Algo::Yens { k, under: Box::new(Algo::Dijkstra), sim: Some(Sim::AcceptAll), term: None };
+            check_case(&w, r, &algo, &Orient::Vertex { o: 0, d: Some(net.n - 1) }, false, &mut scratch);
+            // panics and errors of Yen's algorithm itself are C13's known findings: only the permission clauses count here
+            scratch.violations.retain(|k, _| !k.ends_with("/no_panic"));
+            st.merge(scratch);
+        }
+    })
+}
+
 pub fn run(tier: Tier) -> i32 {
     let info = RunInfo::new("C04", tier);
     let specs = specs(tier);
-    let st = par_enumerate(&specs, |_spec, net, st| {
+    let n_yens = yens_cases(tier).len() as u64;
+    let (yst, yfates) = {
+        use crate::engine::sandbox::{run_cases, SandboxCfg};
+        let cfg = SandboxCfg {
+            worker_args: vec!["--worker".into(), "C04".into(), tier.as_str().into()],
+            n_workers: 16,
+            case_timeout: std::time::Duration::from_millis(100),
+            block: 8,
+            budget: std::time::Duration::from_secs(tier.pick(120, 1800)),
+        };
+        match run_cases(&cfg, n_yens) {
+            Ok(x) => x,
+            Err(e) => {
+                println!("MACHINERY-ERROR sandbox: {}", e);
+                return 2;
+            }
+        }
+    };
+    let mut st = par_enumerate(&specs, |_spec, net, st| {
         for_net(net, tier, st);
         if net.n == 4 && net.m() == 4 {
             st.sample(1, || json!({"net": net, "restriction_sets": restrictions(net, tier).len(), "example": restrictions(net, tier).last()}));
         }
     });
+    st.merge(yst);
+    st.notes.insert(format!("yens pass: {} cases (network x one forbidden edge off the least-cost route) x k in {{2, 3}} in worker processes; {} did not come back within 100 ms (termination of Yen's algorithm is C13's business)", n_yens, yfates.len()));
     let desc: Vec<String> = specs.iter().map(|s| s.describe()).collect();
     finish(
         &info,
         st,
         "state = one labelled multigraph; transition = one real search with frontier models built by the repository's own services (road class with numeric and named sets, six vehicle restriction kinds in mixed units, restricted-turn lists, combined 2-3 models, edge cuts) from the query JSON; oracle = the raw restriction inputs evaluated in physical units with a 1e-3 dead band; non-trivial = something is actually forbidden",
         true,
-        json!({"graph_families": desc}),
+        json!({"graph_families": desc, "yens_cases": n_yens}),
         vec![
             "edges of an edge-oriented query's origin/destination are chosen among permitted edges".into(),
             "turn clauses are evaluated on routes in travel order (reverse searches are reversed first)".into(),
